@@ -108,17 +108,24 @@ def className : Reply → String
   | .notJson => "NOJSON"
   | .panic _ => "PANIC"
   | .deadlock => "HANG"
+  | .evaluating => "EVAL"
 
 structure Step where
   line : Str
-  bit : Bool
+  bit : EvalOutcome
   obs : Option Obs   -- `none` ("?"): the harness could not observe the state (the command hung)
 
 def parseStep (s : String) : Option Step :=
   match s.splitOn "/" with
   | [l, b, o] => do
     let obs ← if o = "?" then some none else (parseObs o).map some
-    some { line := ← hexDecode l, bit := b = "1", obs := obs }
+    let out := match b with
+      | "1" => EvalOutcome.ok
+      | "V" => EvalOutcome.visits true
+      | "B" => EvalOutcome.diverges   -- stops at a break point as thread 999
+      | "D" => EvalOutcome.diverges
+      | _ => EvalOutcome.error
+    some { line := ← hexDecode l, bit := out, obs := obs }
   | _ => none
 
 def runModel (pathOk : Bool) (gs : Bool) (o0 : Obs) (steps : List Step) : String := Id.run do
@@ -130,7 +137,7 @@ def runModel (pathOk : Bool) (gs : Bool) (o0 : Obs) (steps : List Step) : String
   let mut k := 0
   for st in steps do
     if st.line.head? != some 33 then
-      let env : Env := { evalOk := fun _ => st.bit, setPathOk := fun _ _ => pathOk }
+      let env : Env := { eval := fun _ => st.bit, setPathOk := fun _ _ => pathOk }
       let (s', r) := handle env s st.line
       s := s'
       -- Scope.SetValue on a container path is C05's domain: ok and error are not told apart
@@ -146,15 +153,18 @@ def runModel (pathOk : Bool) (gs : Bool) (o0 : Obs) (steps : List Step) : String
       | .error e => return e ++ s!" (step {k})"
       | .ok s' => s := s'
     k := k + 1
-  let env : Env := { evalOk := fun _ => false, setPathOk := fun _ _ => pathOk }
+  let env : Env := { eval := fun _ => .error, setPathOk := fun _ _ => pathOk }
   let (_, r) := handle env s (str "status")
   return (if classes.isEmpty then "-" else ",".intercalate classes) ++ " " ++ className r
 
-/-- the concurrent kind: `cont` from one goroutine, `break`/`rmbreak` from another. Every command
-    runs under the debugger's lock, so any interleaving is a sequence of `handle` steps: each
-    reply is ok and `status` answers. -/
+/-- the concurrent kind: all ten commands from three goroutines while ECAL threads run. The
+    model has no concurrent semantics: the prediction is only that no reply is a panic or an
+    unencodable result and that `status` answers afterwards, which the sequential theorems give
+    for every interleaving of whole commands; what is NOT covered by a theorem — replies that
+    alias live tables of the debugger or provider and are encoded after the lock is released —
+    is exactly what this kind tests (a crash of the process is the result CRASH). -/
 def runConc : String := Id.run do
-  let env : Env := { evalOk := fun _ => false, setPathOk := fun _ _ => true }
+  let env : Env := { eval := fun _ => .error, setPathOk := fun _ _ => true }
   let s0 := init true []
   let s1 := (applyEvent s0 (.start 1)).getD s0
   let s2 := (applyEvent s1 (.advance 1 0 (.suspended false true true []))).getD s1
